@@ -446,7 +446,20 @@ def do_replay(ctx, prop, pdef, path):
         print(open(path).read()[-3000:])
         print('(compile / crash log: rebuild with ./check %s to see whether it still fails)' % prop)
         return 1
-    j = json.load(open(path))
+    customs = [st for st in pdef['stages'] if st.get('kind', 'rc') != 'rc']
+    try:
+        j = json.load(open(path))
+    except Exception:
+        j = None
+    if j is None or (customs and 'config' not in j and j.get('stage') not in [st.get('name') for st in customs]):
+        # not one of the rapidcheck replay files: hand it to the custom stage(s) of the property
+        for st in customs:
+            mod = importlib.import_module(st['module'])
+            fn = getattr(mod, st.get('replay_fn', 'replay'), None)
+            if fn:
+                return fn(ctx, prop, st, path)
+        sys.stderr.write('cannot interpret replay file\n')
+        return 2
     cfg, tag = j.get('config'), j.get('tag', '')
     for stage in pdef['stages']:
         kind = stage.get('kind', 'rc')
